@@ -376,9 +376,19 @@ func childMain() {
 }
 
 func freePort() int {
-	ln, _ := net.Listen("tcp", "127.0.0.1:0")
-	defer ln.Close()
-	return ln.Addr().(*net.TCPAddr).Port
+	// (several checks share the machine: when the ephemeral ports run out for a moment, wait for one instead of dying)
+	for i := 0; ; i++ {
+		ln, err := net.Listen("tcp", "127.0.0.1:0")
+		if err == nil {
+			defer ln.Close()
+			return ln.Addr().(*net.TCPAddr).Port
+		}
+		if i > 600 {
+			fmt.Fprintln(os.Stderr, "execworker: no free port:", err)
+			os.Exit(4)
+		}
+		time.Sleep(100 * time.Millisecond)
+	}
 }
 
 func main() {
